@@ -345,6 +345,22 @@ impl<'a, 'tcx> BodyCx<'a, 'tcx> {
                 j.comma();
                 j.kv_bool("unsafe", true);
             }
+            // #[target_feature(enable = ..)] of the callee (CPU features its body may assume)
+            let tfs = &tcx.codegen_fn_attrs(target).target_features;
+            if !tfs.is_empty() {
+                j.comma();
+                j.key("tf");
+                j.raw("[");
+                let mut first = true;
+                for f in tfs.iter() {
+                    if !first {
+                        j.raw(",");
+                    }
+                    first = false;
+                    j.str(f.name.as_str());
+                }
+                j.raw("]");
+            }
         }
         // trait of the original item, if any
         if let Some(tr) = tcx.trait_of_assoc(did) {
@@ -979,6 +995,23 @@ fn extract<'tcx>(tcx: TyCtxt<'tcx>, crate_name: &str, out_dir: &str, nonce: &str
             j.comma();
             j.kv_bool("async", tcx.asyncness(did).is_async());
             j.comma();
+            {
+                let tfs = &tcx.codegen_fn_attrs(did).target_features;
+                if !tfs.is_empty() {
+                    j.key("tf");
+                    j.raw("[");
+                    let mut first = true;
+                    for f in tfs.iter() {
+                        if !first {
+                            j.raw(",");
+                        }
+                        first = false;
+                        j.str(f.name.as_str());
+                    }
+                    j.raw("]");
+                    j.comma();
+                }
+            }
             if let Some(tr) = tcx.trait_of_assoc(did) {
                 j.kv_str("trait_decl", &cx.path(tr));
                 j.comma();
